@@ -21,3 +21,15 @@ Theorem C09_settled_loops_not_interrupted : forall st s i t m s1 s2,
   apply st s (EvBegin i t m) = Ok s1 -> apply st s (EvLoopFail i) = Ok s2 -> False.
 Proof. exact loop_guard_exclusive. Qed.
 Print Assumptions C09_settled_loops_not_interrupted.
+
+(* "... and simulation time then advances normally": within one group (the scope of a same-time loop) a run never stalls -
+   in every reachable state in which nothing is in flight and some simulator is not done, the scheduler can make a move:
+   start a simulator, begin a step, or stop a loop that does not settle with the SimulationError (EvLoopFail).  So a loop
+   either settles and the next step begins, or it is stopped; it cannot hang.  (The premise uniform_certified is the
+   decidable certificate for "all simulators in one group"; it is checked for every such scenario the harness runs.) *)
+From MV Require Import Sched.Live Sched.Progress Sched.Quiet.
+Theorem C09_loop_never_stalls : forall st, static_ok st -> uniform_certified st = true ->
+  forall s, reached st s -> Quiet s -> (exists i, (i < nsims st)%nat /\ pc (s i) <> Done) ->
+  exists e s', scheduler_move st e /\ apply st s e = Ok s'.
+Proof. exact certified_uniform_progress. Qed.
+Print Assumptions C09_loop_never_stalls.
